@@ -1409,3 +1409,22 @@ def sym_array(shape, name, complex_=False, values=None, kind="input"):
         v = None if values is None else values[idx]
         a[idx] = fresh_complex(nm, kind, v) if complex_ else fresh(nm, kind, None if v is None else float(np.real(v)))
     return SymArray(a, C128 if complex_ else F64)
+
+
+@implements(np.cov)
+def _cov(m, y=None, rowvar=True, bias=False, ddof=None, **kw):
+    if y is not None:
+        raise EngineError("np.cov with two inputs")
+    a = m if isinstance(m, SymArray) else SymArray(obj(m), reported_dtype(m))
+    if a.ndim == 1:
+        a = a.reshape((1, -1))
+        rowvar = True
+    if not rowvar:
+        a = a.T
+    n = a.shape[1]
+    dd = (0 if bias else 1) if ddof is None else ddof
+    c = a - np.mean(a, axis=1, keepdims=True)
+    r = (c @ np.conjugate(c).T) / (n - dd)
+    if r.shape == (1, 1):
+        return r.reshape(())
+    return r
